@@ -13,6 +13,10 @@ ROOT = os.path.dirname(os.path.dirname(os.path.abspath(__file__)))
 rd = sys.argv[1]
 ids = sys.argv[2:] or ['C%02d' % i for i in range(1, 21)]
 props = {json.loads(l)['id']: json.loads(l) for l in open(os.path.join(ROOT, 'properties.jsonl'))}
+HINTS = {}
+hp = os.path.join(rd, 'hints.json')
+if os.path.exists(hp):
+    HINTS = json.load(open(hp))
 TEMPLATE = open(os.path.join(ROOT, 'selftest', 'seed_prompt.txt')).read()
 for pid in ids:
     d = os.path.join(rd, pid)
@@ -30,7 +34,10 @@ for pid in ids:
                 files = sorted(set(re.findall(r'src/hpl/[\w/]+\.(?:py|lark)', open(os.path.join(ROOT, 'seeded', s, 'patch.diff')).read())))
                 earlier.append('- %s (%s)' % (head, ', '.join(files)))
     p = props[pid]
+    hint = HINTS.get(pid)
     txt = TEMPLATE.format(id=pid, title=p['title'], statement=p['statement'], wt=wt, out=os.path.join(d, 'out'),
                           earlier='\n'.join(earlier) or '- (none)')
+    if hint:
+        txt = txt.replace('\n4. Write into', '\n   For this round, make the change inside (or directly around) one of these functions, which no earlier change has touched: %s.\n4. Write into' % hint)
     open(os.path.join(d, 'prompt.txt'), 'w').write(txt)
     print(pid, 'ready', wt)
